@@ -734,8 +734,8 @@ def symvec(names, nan=False, d=None):
 
 # ------------------------------------------------------------------------------------------------ exploration
 class Path:
-    def __init__(self, pc, axioms, domain, result, exc):
-        self.pc = pc; self.axioms = axioms; self.domain = domain; self.result = result; self.exc = exc
+    def __init__(self, pc, axioms, domain, result, exc, terms=()):
+        self.pc = pc; self.axioms = axioms; self.domain = domain; self.result = result; self.exc = exc; self.terms = list(terms)
 
 
 def explore(run, base=(), allowed_exc=(ValueError,), max_paths=512):
@@ -750,7 +750,7 @@ def explore(run, base=(), allowed_exc=(ValueError,), max_paths=512):
             out = run(); exc = None
         except allowed_exc as e:
             out = None; exc = e
-        paths.append(Path(list(CTX.pc), list(CTX.axioms) + CTX.extra_axioms(), list(CTX.domain), out, exc))
+        paths.append(Path(list(CTX.pc), list(CTX.axioms) + CTX.extra_axioms(), list(CTX.domain), out, exc, list(CTX.terms)))
         if len(paths) > max_paths:
             raise PathLimit('more than %d paths' % max_paths)
         for i in range(len(dec), len(CTX.dec)):
